@@ -10,7 +10,8 @@ AsNew(r) == IF r.k = "ok" THEN r ELSE [k |-> "panic"]
 Matches(e) ==
   CASE e.ev = "FromSegments" -> e.res = FromSegments(e.segs)
     [] e.ev = "New" -> e.res = AsNew(New(e.ident, e.mp))
-    [] e.ev = "NewWithReplace" -> e.res = AsNew(NewWithReplace(e.ident, e.mp, e.tab))
+    [] e.ev = "NewWithReplace" -> /\ ChainFree(e.tab) => e.res = AsNew(NewWithReplace(e.ident, e.mp, e.tab))
+                                  /\ e.res.k = "ok" => ValidPath(e.res.segs, Len(Split(e.mp)) + 1)
     [] e.ev = "Access" -> e.ident = Ident(e.segs) /\ e.ns = Namespace(e.segs) /\ e.disp = Display(e.segs)
 Next == l <= Len(Rec) /\ Matches(Rec[l]) /\ l' = l + 1
 Spec == Init /\ [][Next]_l
